@@ -96,6 +96,8 @@ def prod_records_stacks(n, rng, count, max_rows, density, light=True):
     for _ in range(count):
         p = int(rng.integers(1, max_rows + 1))
         q = int(rng.integers(1, max_rows + 1))
+        if rng.random() < 0.35:
+            q = p
         dens = density if density is not None else rng.choice([0.01, 0.5, 0.99])
         A = (rng.random((p, 2 * n)) < dens).astype(np.uint8)
         B = (rng.random((q, 2 * n)) < dens).astype(np.uint8)
@@ -108,6 +110,18 @@ def prod_records_stacks(n, rng, count, max_rows, density, light=True):
                                                     reps_stack(B, light)):
             res.append(as_matrix(bpauli.bs_prod(xa, xb), p, q))
             nm.append(f'{na}*{nb}')
+        n_views = 0
+        if p == q:
+            # the two stacks as interleaved views of ONE buffer (what slicing a
+            # table of operators gives): where operands live must not matter
+            buf = np.empty((2 * p, 2 * n), dtype=np.uint8)
+            buf[0::2] = A
+            buf[1::2] = B
+            res.append(as_matrix(bpauli.bs_prod(buf[0::2], buf[1::2]), p, q))
+            nm.append('views-of-one-buffer')
+            res.append(as_matrix(bpauli.bs_prod(buf[:-1][0::2], buf[1:][0::2]), p, q))
+            nm.append('shifted-views-of-one-buffer')
+            n_views = 2
         # single vs stack forms
         for (na, xa) in reps_stack(A, light):
             res.append(as_matrix(bpauli.bs_prod(xa, B[0]), p, 1)
@@ -116,10 +130,10 @@ def prod_records_stacks(n, rng, count, max_rows, density, light=True):
         rec = {'kind': 'prod', 'n': n,
                'A': [codes.bsf_to_op(r, n) for r in A],
                'B': [codes.bsf_to_op(r, n) for r in B],
-               'res': res[:len(reps_stack(A, light)) ** 2], '_names': nm}
+               'res': res[:len(reps_stack(A, light)) ** 2 + n_views], '_names': nm}
         recs.append(rec)
         # the stack-vs-single results as a separate record (B = one row)
-        k = len(reps_stack(A, light)) ** 2
+        k = len(reps_stack(A, light)) ** 2 + n_views
         recs.append({'kind': 'prod', 'n': n,
                      'A': rec['A'], 'B': rec['B'][:1], 'res': res[k:],
                      '_names': nm[k:]})
